@@ -835,30 +835,29 @@ func varIndexCovered(f *ssa.Function, x, idx ssa.Value, blk *ssa.BasicBlock) (st
 		if !ok {
 			continue
 		}
-		bo, ok := iff.Cond.(*ssa.BinOp)
-		if !ok {
-			continue
-		}
-		// idx < len(s)  |  len(s) > idx  : true edge;   idx >= len(s) | len(s) <= idx : false edge
-		var edge int = -1
-		if l, ok := lenOperand(bo.Y); ok && bo.X == idx && same(l) {
-			switch bo.Op {
-			case token.LSS:
-				edge = 0
-			case token.GEQ:
-				edge = 1
+		for _, cf := range condFacts(iff.Cond, 0) {
+			bo := cf.bo
+			// idx < len(s) | len(s) > idx hold;   idx >= len(s) | len(s) <= idx fail
+			edge := -1
+			if l, ok := lenOperand(bo.Y); ok && bo.X == idx && same(l) {
+				switch bo.Op {
+				case token.LSS:
+					edge = cf.trueEdge
+				case token.GEQ:
+					edge = cf.falseEdge
+				}
 			}
-		}
-		if l, ok := lenOperand(bo.X); ok && bo.Y == idx && same(l) {
-			switch bo.Op {
-			case token.GTR:
-				edge = 0
-			case token.LEQ:
-				edge = 1
+			if l, ok := lenOperand(bo.X); ok && bo.Y == idx && same(l) {
+				switch bo.Op {
+				case token.GTR:
+					edge = cf.trueEdge
+				case token.LEQ:
+					edge = cf.falseEdge
+				}
 			}
-		}
-		if edge >= 0 && edgesDominate(f, []cfgEdge{{b, edge}}, blk) {
-			return "bounded by the loop/test `" + idx.Name() + " < len(…)` on the same slice", true
+			if edge >= 0 && edgesDominate(f, []cfgEdge{{b, edge}}, blk) {
+				return "bounded by the loop/test `" + idx.Name() + " < len(…)` on the same slice", true
+			}
 		}
 	}
 	return "", false
@@ -929,23 +928,25 @@ func testedNonNegative(f *ssa.Function, idx ssa.Value, blk *ssa.BasicBlock) bool
 		if !ok {
 			continue
 		}
-		bo, ok := iff.Cond.(*ssa.BinOp)
-		if !ok || bo.X != idx {
-			continue
-		}
-		k, ok := bo.Y.(*ssa.Const)
-		if !ok || !isIntConst(k) || k.Int64() != 0 {
-			continue
-		}
-		edge := -1
-		switch bo.Op {
-		case token.LSS:
-			edge = 1
-		case token.GEQ:
-			edge = 0
-		}
-		if edge >= 0 && edgesDominate(f, []cfgEdge{{b, edge}}, blk) {
-			return true
+		for _, cf := range condFacts(iff.Cond, 0) {
+			bo := cf.bo
+			if bo.X != idx {
+				continue
+			}
+			k, ok := bo.Y.(*ssa.Const)
+			if !ok || !isIntConst(k) || k.Int64() != 0 {
+				continue
+			}
+			edge := -1
+			switch bo.Op {
+			case token.LSS:
+				edge = cf.falseEdge
+			case token.GEQ:
+				edge = cf.trueEdge
+			}
+			if edge >= 0 && edgesDominate(f, []cfgEdge{{b, edge}}, blk) {
+				return true
+			}
 		}
 	}
 	return false
